@@ -194,7 +194,7 @@ static const cfg_t cfgs[] = {
 
 /* --- history -------------------------------------------------------------*/
 typedef struct {
-    int op, a, b;
+    int op, a, b, x;
     long call, ret;
     int r1, r2, n; /* results: unit indices (-1 none); n = count / size / rc */
     int actor;
@@ -220,6 +220,18 @@ static int unit_index(ABT_thread t)
     return -2;
 }
 
+/* ABT_unit returned by the legacy calls -> unit index (-1: ABT_UNIT_NULL) */
+static int unit_to_index(ABT_unit u)
+{
+    if (u == ABT_UNIT_NULL)
+        return -1;
+    ABT_thread t = ABT_THREAD_NULL;
+    OK(ABT_unit_get_thread(u, &t));
+    abtmc_check(t != ABT_THREAD_NULL, "alien_unit",
+                "ABT_unit_get_thread of a popped unit gave ABT_THREAD_NULL");
+    return unit_index(t);
+}
+
 static void unit_fn(void *arg) { ran[(int)(intptr_t)arg]++; }
 
 static void do_op(int actor, const opspec *o)
@@ -229,6 +241,7 @@ static void do_op(int actor, const opspec *o)
     r.op = o->op;
     r.a = o->a;
     r.b = o->b;
+    r.x = o->x;
     r.actor = actor;
     r.r1 = r.r2 = -1;
     r.call = abtmc_step();
@@ -294,6 +307,54 @@ static void do_op(int actor, const opspec *o)
             r.n = (int)n; /* racy by design: only checked when quiescent */
             break;
         }
+        case O_PUSHU: {
+            ABT_unit u;
+            OK(ABT_thread_get_unit(U[o->a], &u));
+            OK(ABT_pool_push(Q, u));
+            break;
+        }
+        case O_POPU: {
+            ABT_unit u = (ABT_unit)&r; /* must be overwritten */
+            OK(ABT_pool_pop(Q, &u));
+            r.r1 = unit_to_index(u);
+            break;
+        }
+        case O_POPWAITU: {
+            ABT_unit u = (ABT_unit)&r;
+            OK(ABT_pool_pop_wait(Q, &u, WAIT_SECS));
+            r.r1 = unit_to_index(u);
+            break;
+        }
+        case O_PUSHX:
+            OK(ABT_pool_push_thread_ex(Q, U[o->a], CTX[o->x]));
+            break;
+        case O_PUSH2X: {
+            ABT_thread two[2] = { U[o->a], U[o->b] };
+            OK(ABT_pool_push_threads_ex(Q, two, 2, CTX[o->x]));
+            break;
+        }
+        case O_POPX: {
+            ABT_thread t;
+            OK(ABT_pool_pop_thread_ex(Q, &t, CTX[o->x]));
+            r.r1 = unit_index(t);
+            break;
+        }
+        case O_POP2X: {
+            ABT_thread t[2] = { ABT_THREAD_NULL, ABT_THREAD_NULL };
+            size_t n = 99;
+            OK(ABT_pool_pop_threads_ex(Q, t, 2, &n, CTX[o->x]));
+            abtmc_check(n <= 2, "pop_many_count", "pop_threads_ex returned %zu", n);
+            r.n = (int)n;
+            r.r1 = n > 0 ? unit_index(t[0]) : -1;
+            r.r2 = n > 1 ? unit_index(t[1]) : -1;
+            break;
+        }
+        case O_POPWAITX: {
+            ABT_thread t;
+            OK(ABT_pool_pop_wait_thread_ex(Q, &t, WAIT_SECS, CTX[o->x]));
+            r.r1 = unit_index(t);
+            break;
+        }
     }
     r.ret = abtmc_step();
     abtmc_check(nH < MAXH, "harness", "history overflow");
@@ -307,9 +368,75 @@ typedef struct {
 
 static int is_randws;
 
+/* the end rule, from the public flag names (see the comment at CTX[]) */
+static int ctx_push_head(int x)
+{
+    return is_randws &&
+           (CTX[x] & (ABT_POOL_CONTEXT_OP_THREAD_CREATE |
+                      ABT_POOL_CONTEXT_OP_THREAD_CREATE_TO |
+                      ABT_POOL_CONTEXT_OP_THREAD_REVIVE |
+                      ABT_POOL_CONTEXT_OP_THREAD_REVIVE_TO)) != 0;
+}
+static int ctx_pop_tail(int x)
+{
+    return is_randws && (CTX[x] & ABT_POOL_CONTEXT_OWNER_SECONDARY) != 0;
+}
+static void m_push(dq *d, int u, int head)
+{
+    if (head) {
+        memmove(&d->q[1], &d->q[0], sizeof(int) * d->n);
+        d->q[0] = u;
+    } else {
+        d->q[d->n] = u;
+    }
+    d->n++;
+}
+static int m_pop(dq *d, int tail)
+{
+    if (d->n == 0)
+        return -1;
+    int u;
+    if (tail) {
+        u = d->q[d->n - 1];
+    } else {
+        u = d->q[0];
+        memmove(&d->q[0], &d->q[1], sizeof(int) * (d->n - 1));
+    }
+    d->n--;
+    return u;
+}
+
 static int apply(dq *d, const hrec *r)
 {
     switch (r->op) {
+        case O_PUSHU: /* ABT_pool_push: context OP_POOL_OTHER */
+            m_push(d, r->a, 0);
+            return 1;
+        case O_PUSHX:
+            m_push(d, r->a, ctx_push_head(r->x));
+            return 1;
+        case O_PUSH2X:
+            /* one atomic step; the units enter one after the other at the
+             * selected end (so a head push leaves them in reverse order) */
+            m_push(d, r->a, ctx_push_head(r->x));
+            m_push(d, r->b, ctx_push_head(r->x));
+            return 1;
+        case O_POPU:
+        case O_POPWAITU:
+            return r->r1 == m_pop(d, 0);
+        case O_POPX:
+        case O_POPWAITX:
+            return r->r1 == m_pop(d, ctx_pop_tail(r->x));
+        case O_POP2X: {
+            int k = d->n < 2 ? d->n : 2;
+            if (r->n != k)
+                return 0;
+            if (k > 0 && r->r1 != m_pop(d, ctx_pop_tail(r->x)))
+                return 0;
+            if (k > 1 && r->r2 != m_pop(d, ctx_pop_tail(r->x)))
+                return 0;
+            return 1;
+        }
         case O_PUSH_HEADCTX:
             if (is_randws) {
                 memmove(&d->q[1], &d->q[0], sizeof(int) * d->n);
